@@ -30,7 +30,7 @@ HashIn(c) == <<EncK(c.u), VChunk(c.vmask, c.vn, c.vtam)>>
 Seal(pk, scheme, n, ra) ==
   LET r == PAtom(ra)
       u == GScale(r, GenK)
-      c0 == [u |-> u, vmask |-> GScale(r, pk), vn |-> n, vtam |-> "", vown |-> TRUE, w |-> GId, scheme |-> scheme]
+      c0 == [u |-> u, vmask |-> GScale(r, pk), vn |-> n, vtam |-> "", vown |-> TRUE, craft |-> FALSE, w |-> GId, scheme |-> scheme]
   IN [c0 EXCEPT !.w = GScale(r, Hs(TagOf(scheme), HashIn(c0)))]
 
 \* BlsSignCrypt::valid
@@ -41,6 +41,10 @@ Valid(c) == /\ GtOne(PairList(<< <<c.w, GNeg(GenK)>>, <<Hs(TagOf(c.scheme), Hash
 \* "Some" = exactly the original message; "NotOriginal" = None or Some(other bytes)
 Open(c, ua, valid) ==
   IF ~valid THEN "None"
+  \* a crafted frame: under the sender's own mask the declared length overruns the payload or does not
+  \* parse -> nothing (an overlong prefix whose value exceeds 2^64 is truncated by the `as usize` cast and
+  \* may parse: "Any"); under another mask it is noise like any other payload.  Never an abort.
+  ELSE IF c.craft THEN (IF ua = c.vmask /\ c.vtam # "craft-overlong" THEN "None" ELSE "Any")
   ELSE IF ua = c.vmask /\ c.vtam = "" /\ c.vown THEN "Some"
   ELSE "NotOriginal"
 
@@ -91,6 +95,11 @@ ApplyOp(c, o, oc) ==      \* oc = another ciphertext to borrow components from
     [] o.op = "VExtend"  -> [c EXCEPT !.vtam = @ \o "extend;"]
     [] o.op = "VSwap"    -> [c EXCEPT !.vmask = oc.vmask, !.vn = oc.vn, !.vtam = oc.vtam, !.vown = FALSE]
     [] o.op = "Relabel"  -> [c EXCEPT !.scheme = o.arg]
+    \* a malicious *sender*: a perfectly valid ciphertext whose framed plaintext carries a crafted length
+    \* prefix (declares more than is there, 2^63, usize::MAX, an unterminated / overlong LEB128, all 0xff)
+    [] o.op = "CraftFrame" -> LET c1 == [c EXCEPT !.u = GScale(PAtom("rx"), GenK), !.vmask = GScale(PAtom("rx"), PkOf(c.k)),
+                                                  !.vtam = "craft-" \o o.arg, !.craft = TRUE]
+                              IN [c1 EXCEPT !.w = GScale(PAtom("rx"), Hs(TagOf(c1.scheme), HashIn(c1)))]
     \* a fresh header around the borrowed payload: U' = r' P, W' = r' H(tag, U' || V): valid, opens to noise
     [] o.op = "Reseal"   -> LET c1 == [c EXCEPT !.u = GScale(PAtom("rx"), GenK)]
                             IN [c1 EXCEPT !.w = GScale(PAtom("rx"), Hs(TagOf(c1.scheme), HashIn(c1)))]
@@ -100,10 +109,11 @@ Ops(c) == {COp(x, "") : x \in {"UAddGen", "UNeg", "UScale", "UId", "USwap", "WAd
           \cup {COp("VFlip", rg) : rg \in Regions(c.vn)}
           \cup {COp("VTrunc", a) : a \in {"1", "half", "all"}}
           \cup {COp("Relabel", s) : s \in OtherSchemes(c.scheme)}
+          \cup {COp("CraftFrame", a) : a \in {"over1", "half_max", "usize_max", "overlong", "all_ff", "max_minus_used"}}
 
 \* ------------------------------------------------------------ system
 Quiet == [act |-> "-"]
-NoCt == [u |-> GId, vmask |-> GId, vn |-> 0, vtam |-> "", vown |-> TRUE, w |-> GId, scheme |-> "", k |-> 0, ops |-> <<>>, scheme0 |-> "", vn0 |-> 0]
+NoCt == [u |-> GId, vmask |-> GId, vn |-> 0, vtam |-> "", vown |-> TRUE, craft |-> FALSE, w |-> GId, scheme |-> "", k |-> 0, ops |-> <<>>, scheme0 |-> "", vn0 |-> 0]
 NoDeal == [k |-> 0, t |-> 0, n |-> 0]
 CtRec(c) == [k |-> c.k, scheme0 |-> c.scheme0, n |-> c.vn0, ops |-> c.ops]
 
@@ -200,9 +210,11 @@ RoundTrip ==
 \* C11: any change to any component => invalid and nothing (a re-sealed header is a new, valid
 \* ciphertext of the adversary's own making: it opens to noise, never to M)
 TamperRejected ==
-  /\ (Judged("IsValid") /\ last.touched /\ \A i \in 1..Len(last.ct.ops) : last.ct.ops[i].op # "Reseal") => ~last.expect.valid
+  /\ (Judged("IsValid") /\ last.touched /\ \A i \in 1..Len(last.ct.ops) : last.ct.ops[i].op \notin {"Reseal", "CraftFrame"}) => ~last.expect.valid
   /\ (Judged("Decrypt") /\ last.touched) => last.expect.out # "Some"
-  /\ (Judged("Decrypt") /\ last.touched /\ \A i \in 1..Len(last.ct.ops) : last.ct.ops[i].op # "Reseal") => last.expect.out = "None"
+  /\ (Judged("Decrypt") /\ last.touched /\ \A i \in 1..Len(last.ct.ops) : last.ct.ops[i].op \notin {"Reseal", "CraftFrame"}) => last.expect.out = "None"
+\* C17: a crafted frame inside a valid ciphertext is refused without aborting
+CraftRefused == (Judged("Decrypt") /\ last.rightkey /\ \E i \in 1..Len(last.ct.ops) : last.ct.ops[i].op = "CraftFrame" /\ last.ct.ops[i].arg # "overlong") => last.expect.out = "None"
 \* C11: another key never yields the original message
 WrongKey == (Judged("Decrypt") /\ ~last.rightkey) => last.expect.out # "Some"
 \* C04: an identity point in the header is never valid
